@@ -264,8 +264,58 @@ def c18_case(ctx, rng, n_targets):
     finally:
         shutil.rmtree(d, ignore_errors=True)
 
+def c18_generate_case(ctx, rng, n_targets):
+    """`config generate` reads the configuration from standard input: the same JSON value piped in different serialisations
+    (and delivered in one or several writes) must produce the same generated file, lockfile and outputs."""
+    import time
+    lock_port, log_port = vlib.fresh_ports()
+    doc = source_doc(0, lock_port, log_port)
+    doc["targets"] = BASE["targets"] + [{"path": "pkg/t%03d" % i} for i in range(n_targets)]
+    d = mk_dir(ctx, doc)
+    try:
+        open(os.path.join(d, "Monorail.src.json"), "w").write(json.dumps(doc))      # the source file on disk never changes
+        sers = serialisations(rng, doc)
+        sers = sers[:4] + [x for x in sers[4:] if x[0].endswith("_9000") or x[0].endswith("_70000")][:4] + [("split_writes", sers[0][1]), ("split_writes_pretty", sers[1][1])]
+        ref = None
+        for name, text in sers:
+            for f in ("Monorail.json", "Monorail.lock"):
+                if os.path.exists(os.path.join(d, f)): os.remove(os.path.join(d, f))
+            data = text.encode("utf-8")
+            e = dict(os.environ); e.update(vlib.GIT_ENV)
+            p = subprocess.Popen([vlib.BIN_MONORAIL, "-f", os.path.join(d, "Monorail.json"), "config", "generate"], cwd=d, env=e,
+                                 stdin=subprocess.PIPE, stdout=subprocess.PIPE, stderr=subprocess.PIPE)
+            try:
+                if name.startswith("split_writes"):
+                    h = len(data) // 2
+                    p.stdin.write(data[:h]); p.stdin.flush(); time.sleep(0.4); p.stdin.write(data[h:])
+                else:
+                    p.stdin.write(data)
+                p.stdin.close()
+            except (BrokenPipeError, OSError):
+                pass            # the program stopped reading before the end of its input: judged by its outputs below
+            so = p.stdout.read(); se = p.stderr.read(); rc = p.wait(timeout=60)
+            gen = open(os.path.join(d, "Monorail.json"), "rb").read() if os.path.exists(os.path.join(d, "Monorail.json")) else None
+            lock = open(os.path.join(d, "Monorail.lock"), "rb").read() if os.path.exists(os.path.join(d, "Monorail.lock")) else None
+            rc2, out2, err2, raw2 = cli(d, "config", "show")
+            if out2: out2.pop("timestamp", None)
+            got = [rc, gen, lock, rc2, out2 if rc2 == 0 else None]
+            if ref is None: ref, ref_name = got, name
+            same = got == ref
+            size = len(data)
+            v = ctx.model.call("cfgfile", True, False, [], [], 1, [], rc == 0)
+            ctx.count("generate_" + name.split("_")[0]); ctx.count("generate_size_" + ("le8k" if size <= 8192 else "gt8k"))
+            ctx.record({"generate": True, "targets": n_targets, "serialisation": name, "size": size}, True, bool(v[2]), same and rc == 0, size > 8192 or name.startswith("split"),
+                       sample={"api": "config generate (stdin)", "serialisation": name, "size": size, "rc": rc} if size > 8192 else None,
+                       detail={"what": "config generate: same JSON value on stdin, different bytes / delivery: outputs must equal those of the %s serialisation" % ref_name,
+                               "serialisation": name, "size": size, "rc": rc, "ref_rc": ref[0], "generated_same": gen == ref[1], "lock_same": lock == ref[2], "config_show_rc": rc2,
+                               "stderr": se.decode("utf-8", "replace")[-300:]})
+    finally:
+        shutil.rmtree(d, ignore_errors=True)
+
 def run_c18(ctx, scale):
     rng = ctx.rng
     plan = [3, 6, 300] if ctx.quick() else [2, 3, 5, 8, 40, 300, 300] * 10
     for n in plan * scale:
         c18_case(ctx, rng, n)
+    for n in ([2, 150] if ctx.quick() else [0, 2, 40, 150, 400] * 4) * scale:
+        c18_generate_case(ctx, rng, n)
